@@ -46,6 +46,13 @@ unary(struct expr *expr, enum tokenkind op, struct expr *l)
 static void
 binary(struct expr *expr, enum tokenkind op, struct expr *l, struct expr *r)
 {
+	if ((op == TDIV || op == TMOD) && l->type->prop & PROPINT) {
+		/* undefined; don't fold, so that it is only an error if a constant is required */
+		if (r->u.constant.u == 0)
+			return;
+		if (l->type->u.basic.issigned && l->u.constant.i == LLONG_MIN && r->u.constant.i == -1)
+			return;
+	}
 	expr->kind = EXPRCONST;
 	if (l->type->prop & PROPFLOAT)
 		op |= F;
